@@ -448,3 +448,20 @@ def literal_sweep(ops_word, ops_chacha=None, empty_too=False):
             if ops_chacha is not None:
                 reqs.append("chacha n=12 seed=%d ops=%s" % (L, ops_chacha))
     return reqs
+
+
+_STRUCTURED = {}
+
+
+def structured_xoshiro_seeds(tier="quick"):
+    """seeds whose DOCUMENTED Xoshiro256 expansion has two structured state words at once (sparse / dense / leading or trailing zeros), found by
+    the harness's own inversion of the published SplitMix64 (`seedfind`; deterministic): the inputs on which a seeding routine with a "quality"
+    guard over two state words differs from the published expansion"""
+    if tier not in _STRUCTURED:
+        rc, err, binary = C.harness_build("release")
+        if rc != 0:
+            return []
+        iters = 50_000_000 if tier == "quick" else 1_000_000_000
+        rc, out, err = C.run_lines(binary, ["run"], ["seedfind iters=%d seed=20260926 max=%d" % (iters, 3 if tier == "quick" else 8)])
+        _STRUCTURED[tier] = [int(x) for x in out[0][6:].split(",") if x] if out and out[0].startswith("seeds:") else []
+    return _STRUCTURED[tier]
